@@ -816,7 +816,7 @@ impl ValueSize for Path {
 
 impl HeapSize for PathBuf {
     fn heap_size(&self) -> usize {
-        self.as_path().mem_size()
+        self.capacity()
     }
 }
 
